@@ -37,6 +37,10 @@ type C08Scenario struct {
 	Obs    bool     `json:"obs,omitempty"`
 	ViaAny bool     `json:"via_any,omitempty"`
 	SetAPI bool     `json:"set_api,omitempty"` // install the legacy hooks with the Set*Hook methods instead of options
+	SetNil bool     `json:"set_nil,omitempty"` // additionally call Set*Hook(nil) for the legacy hooks that are not installed
+	// Persist: the bus has a store and a 5 ms persistence timeout; slow handlers (sleeping 10 ms) then outlive
+	// it - the timeout belongs to the append, never to the context handlers see.
+	Persist bool `json:"persist,omitempty"`
 }
 
 type c08Key struct{}
@@ -67,6 +71,8 @@ func genC08(rt *rapid.T) core.Scenario {
 	sc.Obs = rapid.IntRange(0, 4).Draw(rt, "obs") == 4
 	sc.ViaAny = rapid.IntRange(0, 4).Draw(rt, "viaAny") == 4
 	sc.SetAPI = rapid.IntRange(0, 3).Draw(rt, "setAPI") == 3
+	sc.SetNil = rapid.IntRange(0, 3).Draw(rt, "setNil") == 3
+	sc.Persist = rapid.IntRange(0, 3).Draw(rt, "persist") == 3
 	sc.Tape = core.DrawTape(rt, 300)
 	return sc
 }
@@ -136,7 +142,18 @@ func (sc *C08Scenario) Execute(t *testing.T) *core.Outcome {
 		if sc.Obs {
 			opts = append(opts, eventbus.WithObservability(nopObs{}))
 		}
+		if sc.Persist {
+			opts = append(opts, eventbus.WithStore(eventbus.NewMemoryStore()), eventbus.WithPersistenceTimeout(5*time.Millisecond))
+		}
 		w = NewWorld(opts...)
+		if sc.SetNil {
+			if sc.Hooks&1 == 0 {
+				w.Bus.SetBeforePublishHook(nil)
+			}
+			if sc.Hooks&4 == 0 {
+				w.Bus.SetAfterPublishHook(nil)
+			}
+		}
 		if sc.SetAPI {
 			if sc.Hooks&1 != 0 {
 				w.Bus.SetBeforePublishHook(func(et reflect.Type, ev any) { hook(0, nil, et, ev) })
@@ -172,6 +189,10 @@ func (sc *C08Scenario) Execute(t *testing.T) *core.Outcome {
 			calls[ri]++
 			for i := 0; i < r.Yields; i++ {
 				simrt.Yield(siteHandler)
+				check()
+			}
+			if sc.Persist && pubKind(sc, id) != 3 {
+				simrt.Sleep(10 * time.Millisecond) // longer than the persistence timeout
 				check()
 			}
 			if pubKind(sc, id) == 3 {
